@@ -70,7 +70,10 @@ Inductive case :=
      delegation, 4 no reachable server), the entry found on file under the first NS owner's key at each address
      lookup that went out (the provisional publications), and the entries on file afterwards for the probed names *)
 | CaseDelegHist (local : list ipaddr) (evs : list deleg_event)
-                (obs : list (N * list deleg_entry * list (name * option deleg_entry))).
+                (obs : list (N * list deleg_entry * list (name * option deleg_entry)))
+                (* afterwards, the real searchCache for some question names (DS question or not): the zone label of
+                   the server set it starts with (None: the root servers) and the level it seeds *)
+                (searches : list (name * bool * option name * nat)).
 
 (* ---------------------------------------------------------------- helpers *)
 Fixpoint list_eqb {A} (eqb : A -> A -> bool) (a b : list A) : bool :=
@@ -187,16 +190,21 @@ Definition outcome_class (o : deleg_outcome) : N :=
 (* the lookup order handed to the model is a permutation of the referral's host set *)
 Definition order_wf (e : deleg_event) : bool :=
   match e with DelegMsg _ _ _ m order _ => same_names order (di_hosts (extract_info (u_ns m))) && Nat.eqb (length order) (length (di_hosts (extract_info (u_ns m)))) end.
+Definition search_check (dc : deleg_cache) (s : name * bool * option name * nat) : bool :=
+  let '(n, ds, oz, olv) := s in
+  let '(r, lv) := search_cache dc ds n in
+  opt_eqb name_eqb (option_map (fun p => de_zone (snd p)) r) oz && Nat.eqb lv olv.
 Fixpoint deleg_check (local : list ipaddr) (st : deleg_state) (evs : list deleg_event)
-         (obs : list (N * list deleg_entry * list (name * option deleg_entry))) : bool :=
+         (obs : list (N * list deleg_entry * list (name * option deleg_entry)))
+         (searches : list (name * bool * option name * nat)) : bool :=
   match evs, obs with
-  | [], [] => true
+  | [], [] => forallb (search_check (snd st)) searches
   | e :: er, (cls, snaps, probes) :: orest =>
       let '(st1, r) := deleg_apply local st e in
       (outcome_class (dr_outcome r) =? cls) &&
       list_eqb de_eqb (map snd (filter fst (dr_snaps r))) snaps &&
       forallb (fun p => opt_eqb de_eqb (deleg_get (fst p) (snd st1)) (snd p)) probes &&
-      order_wf e && deleg_check local st1 er orest
+      order_wf e && deleg_check local st1 er orest searches
   | _, _ => false
   end.
 
@@ -272,7 +280,7 @@ Definition check_case (c : case) : bool :=
       | Some (_, None) => false
       | None => match acc, srv, f4 with None, [], [] => true | _, _, _ => false end
       end
-  | CaseDelegHist local evs obs => deleg_check local ([], []) evs obs
+  | CaseDelegHist local evs obs searches => deleg_check local ([], []) evs obs searches
   end.
 
 Definition spec_glue_source (local : list ipaddr) (host : name) (a : ipaddr) (evs : list glue_event) : bool :=
@@ -414,5 +422,13 @@ Definition spec_case (c : case) : bool :=
       (let zone := firstn level (q_name q) in
        forallb (fun n => Nat.eqb (length zone) level && spec_in_zone zone n) f4) &&
       forallb (spec_addr_ok local) srv
-  | CaseDelegHist local evs obs => deleg_spec local [] evs obs
+  | CaseDelegHist local evs obs searches =>
+      deleg_spec local [] evs obs &&
+      (* a resolution starts at servers whose zone label encloses the question name (for a DS question: strictly, the
+         parent side answers), with the level of that zone *)
+      forallb (fun s => let '(n, ds, oz, lv) := s in
+                        match oz with
+                        | Some z => spec_in_zone z n && Nat.eqb lv (length z) && (if ds : bool then Nat.ltb (length z) (length n) else true)
+                        | None => Nat.eqb lv 0
+                        end) searches
   end.
